@@ -153,9 +153,9 @@ var c18SampleWanted = map[string]bool{"MustAccept/none": true, "MustReject/SigAb
 func TestC18(t *testing.T) {
 	rep := NewReport("C18")
 	defer rep.Finish(t)
-	rep.Rule = "every terminal state of spec/LogoutValidate.tla is built as a concrete document (random representatives per class), signed / mangled as the signature state says, POST- or redirect-encoded and passed to the real validator of a ServiceProvider set up with the vector's trust configuration; IssueInstant is relative to the wall clock at call time. Families: all single and pairwise deviations from a valid signed LogoutResponse over framing x root element x signature state x signing key x KeyInfo x Destination x Issuer x top-level StatusCode x IssueInstant class (6 entry points, metadata trust with one / several certificates, 3 MaxIssueDelay settings); 22 trust configurations (metadata key descriptors: one / several / use signing / omitted / encryption / none; pinned IDPCertificate x metadata listing nothing / the same / another key / no metadata; fingerprint sha256 / sha512 x the same; excluded combinations) x every single deviation, x signer {idp1, idp2, encryption-only, outsider} x KeyInfo x Signature position through all entry points; the Status structure top-level code (10 classes) x nested code (6) x StatusMessage / StatusDetail (4) through all entry points; non-trivial = class MustAccept or MustReject"
+	rep.Rule = "every terminal state of spec/LogoutValidate.tla is built as a concrete document (random representatives per class), signed / mangled as the signature state says, POST- or redirect-encoded and passed to the real validator of a ServiceProvider set up with the vector's trust configuration; IssueInstant is relative to the wall clock at call time. Families: all single and pairwise deviations from a valid signed LogoutResponse over framing x root element x signature state x signing key x KeyInfo x Destination x Issuer x top-level StatusCode x IssueInstant class (6 entry points, metadata trust with one / several certificates, 3 MaxIssueDelay settings); 25 trust configurations (metadata key descriptors: one / several / use signing / omitted / encryption / none; an SPSSODescriptor / AttributeAuthorityDescriptor of the same entity with signing keys of their own; pinned IDPCertificate x metadata listing nothing / the same / another key / no metadata; fingerprint sha256 / sha512 x the same; excluded combinations) x every single deviation, x signer {idp1, idp2, encryption-only, outsider, key of another role} x KeyInfo x Signature position through all entry points; the Status structure top-level code (10 classes) x nested code (6) x StatusMessage / StatusDetail (4) through all entry points; non-trivial = class MustAccept or MustReject"
 	rep.Assume("the wall clock does not jump by more than the 5 s guard band between building a message and validating it (the class is recomputed from instants measured around the call)")
-	rep.Assume("test messages are signed with goxmldsig (exc-c14n, RSA-SHA256) using fixed harness keys; untrusted = key 'att', encryption-only = key 'idpenc'")
+	rep.Assume("test messages are signed with goxmldsig (exc-c14n, RSA-SHA256) using fixed harness keys; untrusted = key 'att', encryption-only = key 'idpenc', published for another role of the IdP's entity only = key 'sp2' (class 'role')")
 	lines := loadLines(t, "vectors.ndjson")
 	if len(lines) == 0 {
 		rep.Break("no vectors")
@@ -185,7 +185,7 @@ func TestC18(t *testing.T) {
 	// evidence: evaluations per branch of "trusted IdP certificate" and per class, and the
 	// two interactions the trust / Status dimensions exist for
 	byTrust := map[string]map[string]int{}
-	onlyInMetadata, nestedUnderFailure := 0, 0
+	onlyInMetadata, nestedUnderFailure, otherRole := 0, 0, 0
 	// MaxIssueDelay is a package variable: one setting at a time
 	for _, midName := range []string{"90s", "10s", "1h"} {
 		vs := vecs[midName]
@@ -230,6 +230,10 @@ func TestC18(t *testing.T) {
 					(vs[i].Pred.Step == "SigUntrustedCert" || vs[i].Pred.Step == "FpMismatch") {
 					onlyInMetadata++
 				}
+				if c.cls == "MustReject" && vs[i].Pred.Verdict == "reject" && c18OtherRoleSigner(vs[i]) &&
+					(vs[i].Pred.Step == "SigUntrustedCert" || vs[i].Pred.Step == "NoSigningCert") {
+					otherRole++
+				}
 				if c.cls == "MustReject" && vs[i].Pred.Step == "Status" && vs[i].In.Sub != "none" {
 					nestedUnderFailure++
 				}
@@ -252,6 +256,10 @@ func TestC18(t *testing.T) {
 	rep.Extra["c18_downgraded_by_clock"] = downgraded
 	rep.Extra["c18_by_trust_kind"] = byTrust
 	rep.Extra["c18_signer_only_in_metadata_rejected_for_it"] = onlyInMetadata
+	rep.Extra["c18_signer_key_of_another_role_rejected_for_it"] = otherRole
+	if otherRole == 0 {
+		rep.Break("vacuous: no case signed with a key the IdP's entity publishes for another role only (SPSSODescriptor / AttributeAuthorityDescriptor) under metadata trust")
+	}
 	rep.Extra["c18_nested_code_under_failing_top_level_rejected_for_it"] = nestedUnderFailure
 	if onlyInMetadata == 0 || nestedUnderFailure == 0 || byTrust["pinned"]["MustAccept"] == 0 || byTrust["fingerprint"]["MustAccept"] == 0 {
 		rep.Break("vacuous: no case with a signer listed only in the metadata of a pinned / fingerprint configuration, no nested status code under a failing top-level code, or no accepting case under a pinned / fingerprint configuration")
